@@ -35,7 +35,7 @@ func c05(tier string) []*explore.Scenario {
 	out = append(out, c05Server(2, 1))
 	// (c) id allocation under concurrent starts: the C01 drivers (wire oracle reports duplicate ids)
 	out = append(out, donors("C05", c01(tier))...)
-	out = append(out, donors("C05", []*explore.Scenario{c02One([]streamCase{{"Bidi", "pingpong", "echo", 1, 0}, {"Bidi", "pingpong", "echo", 1, 0}}, 64, 2)})...)
+	out = append(out, donors("C05", []*explore.Scenario{c02One([]streamCase{{"Bidi", "pingpong", "echo", 1, 0, 0}, {"Bidi", "pingpong", "echo", 1, 0, 0}}, 64, 2)})...)
 	n := 10000
 	if tier == "thorough" {
 		n = 100000
